@@ -121,3 +121,30 @@ Proof.
   intros nd' a. apply room_gate_no_overflow.
 Qed.
 End NO2.
+
+(* ---------------------------------------------------------------- scores fit the Score type (u32) *)
+Require Import Score1 Cert.
+Section NO3.
+Variables (courses : list course) (parts : list participant).
+Hypothesis V : Valid courses parts.
+
+Lemma contribution_le a p : (contribution courses parts a p <= WEIGHT_OFFSET)%Z.
+Proof.
+  pose proof (weight_offset_nonneg courses parts V) as H0. unfold contribution.
+  destruct (instr_only parts p); [lia|]. destruct (getO a p) as [c|]; [|lia]. destruct (instructs courses p c); [lia|].
+  destruct (cw_cases parts p c) as [->|(ch & Hch & ->)]; [lia|]. pose proof (valid_pen _ _ V p ch Hch). lia.
+Qed.
+
+Lemma score_le_np a : (score_of courses parts a <= Z.of_nat (np parts) * WEIGHT_OFFSET)%Z.
+Proof.
+  rewrite score_of_contrib. rewrite <- (seq_length (np parts) 0) at 2. generalize (seq 0 (np parts)) as L. intros L.
+  induction L as [|p t IH]; [simpl; lia|]. cbn [map length]. change (sumZ (?x :: ?l)) with (x + sumZ l)%Z.
+  pose proof (contribution_le a p). rewrite Nat2Z.inj_succ. lia.
+Qed.
+
+(* under the size bound every score fits u32 (Score): the `smax` hypothesis of the search theorems holds for smax = u32::MAX *)
+Theorem score_fits_u32 a : SizeOK courses parts -> (score_of courses parts a <= 4294967295)%Z.
+Proof.
+  intros Hs. pose proof (score_le_np a). unfold SizeOK, maxI in Hs. pose proof (np_le_n courses parts). pose proof (weight_offset_nonneg courses parts V). nia.
+Qed.
+End NO3.
